@@ -71,7 +71,9 @@ func (p *vacPeers) AppRequest(_ context.Context, _ ids.NodeID, _ time.Time, requ
 		kind, p.script = p.script[0], p.script[1:]
 	}
 	p.n++
-	p.log.add(map[string]any{"ev": "req", "n": p.n, "want": want, "kind": kind})
+	if p.n <= 60 { // a spinning Accept would log for ever; a healthy one sends at most script+certs requests
+		p.log.add(map[string]any{"ev": "req", "n": p.n, "want": want, "kind": kind})
+	}
 	orig, ok := p.chunks[want]
 	if !ok {
 		return nil, ErrChunkNotAvailable
@@ -119,16 +121,23 @@ func (p *vacPeers) AppRequest(_ context.Context, _ ids.NodeID, _ time.Time, requ
 	}
 }
 
-// TestVerifAcceptRecord records seeded scenarios (tv).
+// TestVerifAcceptRecord records seeded scenarios (tv).  Half of the scenarios run under a small producer rate limit
+// (GetMaxAccumulatedProducerChunkWeight = 1..3 chunks) with most chunks made by one producer and up to two further
+// pending chunks of it on the acceptor that no block references, so that chunks have to be fetched while their
+// producer's pending weight on the acceptor is at the limit.
 func TestVerifAcceptRecord(t *testing.T) {
 	if os.Getenv("VERIF_OUT") == "" {
 		t.Skip("VERIF_OUT not set")
 	}
 	seed := int64(vnEnvInt("VERIF_SEED", 1))
 	n := vnEnvInt("VERIF_SCENARIOS", 60)
+	watchdog := time.Duration(vnEnvInt("VERIF_WATCHDOG_S", 30)) * time.Second
 	const window = int64(10)
 	net := newVnNet(t, 3, window)
-	for sc := 0; sc < n; sc++ {
+	unit := len(net.makeChunk(0, 1, ids.ID{1}).bytes) // every chunk of the driver has one transaction and this size
+	prodNames := []string{"v1", "v2", "v3"}
+	hung := false
+	for sc := 0; sc < n && !hung; sc++ {
 		if only := os.Getenv("VERIF_ONLY"); only != "" && only != strconv.Itoa(sc) {
 			continue
 		}
@@ -139,8 +148,47 @@ func TestVerifAcceptRecord(t *testing.T) {
 		for _, v := range net.vals[1:] {
 			peerMap[v.id] = peers
 		}
+		tight := r.Intn(2) == 0
+		limitUnits := 1_000_000
+		net.limit = 0
+		if tight {
+			limitUnits = 1 + r.Intn(3)
+			net.limit = uint64(limitUnits*unit + unit/2)
+		}
 		a := net.newNode(0, peerMap, peers)
-		log.add(map[string]any{"ev": "reset", "validators": len(net.vals), "win": window})
+		log.add(map[string]any{"ev": "reset", "validators": len(net.vals), "win": window, "limit": limitUnits})
+		pickProducer := func() int {
+			if tight && r.Intn(10) < 7 {
+				return 1
+			}
+			return r.Intn(len(net.vals))
+		}
+		newChunk := func(prod int, expiry int64) Chunk[dsmrtest.Tx] {
+			var txID ids.ID
+			r.Read(txID[:])
+			ch := net.makeChunk(prod, expiry, txID)
+			if len(ch.bytes) != unit {
+				t.Fatalf("verif harness: chunk size %d != %d", len(ch.bytes), unit)
+			}
+			return ch
+		}
+		// what a node does when a producer asks it to sign a chunk: rate limit first, then store
+		signFor := func(name string, prod int, ch Chunk[dsmrtest.Tx]) bool {
+			if a.storage.CheckRateLimit(ch) != nil {
+				return false
+			}
+			if _, err := a.storage.VerifyRemoteChunk(ch); err != nil {
+				t.Fatalf("verif harness: VerifyRemoteChunk: %v", err)
+			}
+			log.add(map[string]any{"ev": "store", "c": name, "p": prodNames[prod]})
+			return true
+		}
+		if tight {
+			for i, m := 0, r.Intn(3); i < m; i++ { // pending chunks that no block of the scenario references
+				prod := pickProducer()
+				signFor(vnName("o", i+1), prod, newChunk(prod, window))
+			}
+		}
 		parent := Block{}
 		nchunk := 0
 		nblocks := 1 + r.Intn(2)
@@ -148,30 +196,23 @@ func TestVerifAcceptRecord(t *testing.T) {
 			ts := parent.Timestamp + 1 + int64(r.Intn(3))
 			k := 1 + r.Intn(3)
 			names := []string{}
+			prods := []string{}
 			certs := []*ChunkCertificate{}
 			for i := 0; i < k; i++ {
 				nchunk++
 				name := vnName("k", nchunk)
-				var txID ids.ID
-				r.Read(txID[:])
+				prod := pickProducer()
 				// admissible for a node whose last accepted block is the parent: expiry in [ts, parent.ts + window]
-				expiry := ts + r.Int63n(parent.Timestamp+window-ts+1)
-				ch := net.makeChunk(r.Intn(len(net.vals)), expiry, txID)
+				ch := newChunk(prod, ts+r.Int63n(parent.Timestamp+window-ts+1))
 				peers.chunks[name] = ch
 				peers.byID[ch.id] = name
 				names = append(names, name)
+				prods = append(prods, prodNames[prod])
 				certs = append(certs, net.makeCert(ch))
-				if r.Intn(2) == 0 {
-					// the acceptor signed this chunk for its producer earlier: it is in its storage
-					if _, err := a.storage.VerifyRemoteChunk(ch); err != nil {
-						t.Fatalf("verif harness: VerifyRemoteChunk: %v", err)
+				if r.Intn(2) == 0 && signFor(name, prod, ch) && r.Intn(2) == 0 {
+					if err := a.storage.SetChunkCert(context.Background(), ch.id, certs[i]); err != nil {
+						t.Fatalf("verif harness: SetChunkCert: %v", err)
 					}
-					if r.Intn(2) == 0 {
-						if err := a.storage.SetChunkCert(context.Background(), ch.id, certs[i]); err != nil {
-							t.Fatalf("verif harness: SetChunkCert: %v", err)
-						}
-					}
-					log.add(map[string]any{"ev": "store", "c": name})
 				}
 			}
 			script := []string{}
@@ -184,11 +225,17 @@ func TestVerifAcceptRecord(t *testing.T) {
 			peers.min = parent.Timestamp
 			peers.mu.Unlock()
 			blk := vnMakeBlock(t, parent, parent.Height+1, ts, certs)
-			log.add(map[string]any{"ev": "accept_call", "b": vnName("b", b), "ts": ts, "certs": names, "script": script})
-			eb, err, returned := vnAccept(a.node, blk, 60*time.Second)
+			log.add(map[string]any{"ev": "accept_call", "b": vnName("b", b), "ts": ts, "certs": names, "prods": prods, "script": script})
+			eb, err, returned := vnAccept(a.node, blk, watchdog)
 			if !returned {
-				// "no hang" is not decided by the clock alone: recorded, the check replays the scenario before it reports
-				log.add(map[string]any{"ev": "accept_ret", "b": vnName("b", b), "res": "hang", "err": "no return within 60s", "chunks": []string{}})
+				// "no hang" is not decided by the clock alone: recorded; the check replays this scenario alone before it
+				// reports.  The abandoned Accept keeps spinning, so no further scenario is recorded in this process.
+				peers.mu.Lock()
+				served := peers.n
+				peers.mu.Unlock()
+				log.add(map[string]any{"ev": "accept_ret", "b": vnName("b", b), "res": "hang",
+					"err": "no return within the watchdog although the valid chunk was served", "chunks": []string{}, "requests": served})
+				hung = true
 				break
 			}
 			chunks := []string{}
@@ -203,11 +250,22 @@ func TestVerifAcceptRecord(t *testing.T) {
 			if err != nil {
 				res = "err"
 			}
-			log.add(map[string]any{"ev": "accept_ret", "b": vnName("b", b), "res": res, "err": vnErrString(err), "chunks": chunks})
+			log.add(map[string]any{"ev": "accept_ret", "b": vnName("b", b), "res": res, "err": vnErrString(err), "chunks": chunks, "requests": 0})
 			if err != nil {
 				break
 			}
 			parent = blk
+		}
+		if hung {
+			// the spinning Accept keeps logging requests: freeze the log at the hang line
+			log.mu.Lock()
+			for i, l := range log.lines {
+				if l["ev"] == "accept_ret" && l["res"] == "hang" {
+					log.lines = log.lines[:i+1]
+					break
+				}
+			}
+			log.mu.Unlock()
 		}
 		log.dump(t, "ac"+vnName("", 100000+sc)[1:])
 	}
